@@ -350,20 +350,41 @@ theorem take_keeps (s : St) (o1 o2 : List Nat) (id : Nat) :
           · simp [sentBy, Out.stream]
           · exact takeFrom_keeps s _ id
 
-theorem takeW_keeps (s : St) (o1 o2 : List Nat) (id : Nat)
-    (ha : (takeW s o1 o2).2.streams.lookup id ≠ none) :
-    pending s id = sentBy id (some (takeW s o1 o2).1) ++ pending (takeW s o1 o2).2 id := by
-  have hk := take_keeps s o1 o2 id
-  unfold takeW at ha ⊢
-  simp only [] at ha ⊢
+def sentByL (id : Nat) (l : List Out) : List Atom := l.flatMap fun o => sentBy id (some o)
+
+theorem pending_afterEnd_other (s : St) (j id : Nat) (h : id ≠ j) : pending (afterEnd s j) id = pending s id := by
+  unfold afterEnd
   split
-  · rename_i j hj
-    simp only [hj] at ha
-    by_cases hji : id = j
-    · subst hji; exact absurd (forget_lookup_self _ id) ha
-    · simp only []
-      rw [pending_forget_other _ j id hji]; exact hk
-  · exact hk
+  · exact pending_forget_other s j id h
+  · rw [pending_forget_other _ j id h]; exact pending_sq _ _ id rfl
+
+theorem takeChain_keeps (id : Nat) : ∀ (fuel : Nat) (s : St) (ords : List (List Nat)),
+    (∀ o ∈ (takeChain fuel s ords).1, o.ends ≠ some id) →
+    pending s id = sentByL id (takeChain fuel s ords).1 ++ pending (takeChain fuel s ords).2 id := by
+  intro fuel
+  induction fuel with
+  | zero => intro s ords _; simp [takeChain, sentByL]
+  | succ n ih =>
+    intro s ords h
+    have hk := take_keeps s (ords.headD []) (ords.headD []) id
+    simp only [takeChain] at h ⊢
+    split
+    · rename_i j hj
+      simp only [hj] at h
+      have hne : id ≠ j := by
+        intro e; subst e
+        exact h _ (List.mem_cons_self) hj
+      have hrest := ih (afterEnd (take s (ords.headD []) (ords.headD [])).2 j) ords.tail
+        (fun o ho => h o (List.mem_cons_of_mem _ ho))
+      rw [pending_afterEnd_other _ j id hne] at hrest
+      simp only [sentByL, List.flatMap_cons] at hrest ⊢
+      rw [List.append_assoc, ← hrest]; exact hk
+    · split
+      · rename_i hno
+        have : (take s (ords.headD []) (ords.headD [])).1 = .nothing := by simpa using hno
+        rw [this] at hk
+        simpa [sentByL, sentBy, Out.stream] using hk
+      · simpa [sentByL] using hk
 
 /-- what an operation appends to the queue of stream `id` -/
 def addedBy (s : St) (msg id : Nat) : Op → List Atom
@@ -372,56 +393,57 @@ def addedBy (s : St) (msg id : Nat) : Op → List Atom
   | _ => []
 
 theorem step_keeps (s : St) (msg : Nat) (op : Op) (id : Nat)
-    (ha : (step s msg op).2.2.streams.lookup id ≠ none) :
+    (ha : (step s msg op).2.2.streams.lookup id ≠ none)
+    (he : ∀ o ∈ (step s msg op).2.1, o.ends ≠ some id) :
     pending s id ++ addedBy s msg id op =
-      sentBy id (step s msg op).2.1 ++ pending (step s msg op).2.2 id := by
+      sentByL id (step s msg op).2.1 ++ pending (step s msg op).2.2 id := by
   cases op with
-  | openS j =>
+  | openS j hh =>
     simp only [step, addedBy, List.append_nil]
     split
-    · simp [sentBy]
-    · split <;> simp [sentBy] <;> exact pending_sq _ _ id rfl
+    · simp [sentByL]
+    · split <;> simp [sentByL] <;> exact pending_sq _ _ id rfl
   | addData i len e =>
     simp only [step, addedBy]
     by_cases hs : (s.streams.lookup i).isSome = true
-    · simp only [hs, if_true, and_true, sentBy, List.nil_append, pending_pushQ]
+    · simp only [hs, if_true, and_true, sentByL, List.flatMap_nil, List.nil_append, pending_pushQ]
       split <;> simp
-    · simp [hs, sentBy]
+    · simp [hs, sentByL]
   | addHdr i e =>
     simp only [step, addedBy]
     by_cases hs : (s.streams.lookup i).isSome = true
-    · simp only [hs, if_true, and_true, sentBy, List.nil_append, pending_pushQ]
+    · simp only [hs, if_true, and_true, sentByL, List.flatMap_nil, List.nil_append, pending_pushQ]
       split <;> simp
-    · simp [hs, sentBy]
+    · simp [hs, sentByL]
   | addCtl =>
-    simp only [step, addedBy, List.append_nil, sentBy, List.nil_append]
+    simp only [step, addedBy, List.append_nil, sentByL, List.flatMap_nil, List.nil_append]
     exact pending_sq _ _ id rfl
-  | takeOp o1 o2 =>
-    simp only [step, addedBy, List.append_nil] at ha ⊢
-    exact takeW_keeps s o1 o2 id ha
+  | takeOp ords =>
+    simp only [step, addedBy, List.append_nil] at he ⊢
+    exact takeChain_keeps id _ s ords he
   | wu j inc =>
     simp only [step, addedBy, List.append_nil] at ha ⊢
     split
-    · split <;> simp [sentBy] <;> exact pending_sq _ _ id rfl
+    · split <;> simp [sentByL] <;> exact pending_sq _ _ id rfl
     · rename_i hj0
       simp only [hj0, if_false] at ha
       split
-      · simp [sentBy]
+      · simp [sentByL]
       · rename_i n hn
         simp only [hn] at ha
         split
-        · simp [sentBy]; exact pending_sq _ _ id rfl
+        · simp [sentByL]; exact pending_sq _ _ id rfl
         · rename_i hadd
           simp only [hadd] at ha
           by_cases hji : id = j
           · subst hji; exact absurd (forget_lookup_self _ id) ha
-          · simp only [sentBy, List.nil_append]
-            exact (pending_forget_other s j id hji).symm
+          · simp only [sentByL, List.flatMap_nil, List.nil_append]
+            rw [pending_forget_other _ j id hji]; exact pending_sq _ _ id rfl
   | setIws v =>
     simp only [step, addedBy, List.append_nil]
-    split <;> simp [sentBy] <;> exact pending_sq _ _ id rfl
+    split <;> simp [sentByL] <;> exact pending_sq _ _ id rfl
   | setMfs v =>
-    simp only [step, addedBy, List.append_nil, sentBy, List.nil_append]
+    simp only [step, addedBy, List.append_nil, sentByL, List.flatMap_nil, List.nil_append]
     exact pending_sq _ _ id rfl
   | forgetOp j =>
     simp only [step, addedBy, List.append_nil] at ha ⊢
@@ -430,9 +452,9 @@ theorem step_keeps (s : St) (msg : Nat) (op : Op) (id : Nat)
       simp only [hex, if_true] at ha
       by_cases hji : id = j
       · subst hji; exact absurd (forget_lookup_self _ id) ha
-      · simp only [sentBy, List.nil_append]
+      · simp only [sentByL, List.flatMap_nil, List.nil_append]
         exact (pending_forget_other s j id hji).symm
-    · simp [sentBy]
+    · simp [sentByL]
 
 def nextMsg (msg : Nat) : Op → Nat
   | .addData .. => msg + 1
@@ -443,13 +465,15 @@ def trace (id : Nat) : St → Nat → List Op → St × List Atom × List Atom
   | s, _, [] => (s, [], [])
   | s, msg, op :: r =>
     let t := trace id (step s msg op).2.2 (nextMsg msg op) r
-    (t.1, sentBy id (step s msg op).2.1 ++ t.2.1, addedBy s msg id op ++ t.2.2)
+    (t.1, sentByL id (step s msg op).2.1 ++ t.2.1, addedBy s msg id op ++ t.2.2)
 
-/-- stream `id` is still a stream of the connection after every one of the operations -/
+/-- stream `id` is still a stream of the connection after every one of the operations, and none of
+    the frames written so far carried its END_STREAM -/
 def aliveAfterEach (id : Nat) : St → Nat → List Op → Prop
   | _, _, [] => True
   | s, msg, op :: r =>
-    (step s msg op).2.2.streams.lookup id ≠ none ∧ aliveAfterEach id (step s msg op).2.2 (nextMsg msg op) r
+    (step s msg op).2.2.streams.lookup id ≠ none ∧ (∀ o ∈ (step s msg op).2.1, o.ends ≠ some id) ∧
+    aliveAfterEach id (step s msg op).2.2 (nextMsg msg op) r
 
 theorem trace_keeps (id : Nat) (ops : List Op) : ∀ (s : St) (msg : Nat), aliveAfterEach id s msg ops →
     pending s id ++ (trace id s msg ops).2.2 = (trace id s msg ops).2.1 ++ pending (trace id s msg ops).1 id := by
@@ -457,10 +481,451 @@ theorem trace_keeps (id : Nat) (ops : List Op) : ∀ (s : St) (msg : Nat), alive
   | nil => intro s msg _; simp [trace]
   | cons op r ih =>
     intro s msg h
-    obtain ⟨h1, h2⟩ := h
-    have hs := step_keeps s msg op id h1
+    obtain ⟨h1, h1', h2⟩ := h
+    have hs := step_keeps s msg op id h1 h1'
     have hr := ih _ _ h2
     simp only [trace]
     rw [← List.append_assoc, hs, List.append_assoc, hr, List.append_assoc]
+
+/-! ### the client-side ghost of the send windows -/
+
+/-- what the CLIENT knows it has granted: initial windows + WINDOW_UPDATEs + SETTINGS deltas − DATA
+    received.  Updated only from the operations, their accept/refuse verdicts and the frames written. -/
+structure Ghost where
+  conn : Int := 65535
+  win : List (Nat × Int) := []
+  iws : Int := 65535
+deriving Repr
+
+def ghostFrame (g : Ghost) : Out → Ghost
+  | .data id _ _ len _ _ =>
+    if len = 0 then g else
+    match g.win.lookup id with
+    | some w => { g with conn := g.conn - len, win := setKey id (w - len) g.win }
+    | none => { g with conn := g.conn - len }
+  | _ => g
+
+/-- a frame with END_STREAM ends the stream: its window is forgotten -/
+def ghostEnds (g : Ghost) (o : Out) : Ghost :=
+  match o.ends with
+  | some id => { g with win := delKey id g.win }
+  | none => g
+
+def ghostChain (g : Ghost) (l : List Out) : Ghost := l.foldl (fun g o => ghostEnds (ghostFrame g o) o) g
+
+def ghostStep (g : Ghost) (op : Op) (tok : String) (outs : List Out) : Ghost :=
+  match op with
+  | .openS id _ => if tok == "+" then { g with win := setKey id g.iws g.win } else g
+  | .takeOp _ => ghostChain g outs
+  | .wu id inc =>
+    if tok == "ok" then
+      if id == 0 then { g with conn := g.conn + inc }
+      else match g.win.lookup id with
+        | some w => { g with win := setKey id (w + inc) g.win }
+        | none => g
+    else if tok == "rst" then { g with win := delKey id g.win }
+    else g
+  | .setIws v =>
+    if tok == "ok" then { g with iws := v, win := g.win.map fun p => (p.1, p.2 + ((v : Int) - g.iws)) } else g
+  | .forgetOp id => if tok == "+" then { g with win := delKey id g.win } else g
+  | _ => g
+
+def I32 (x : Int) : Prop := -2147483648 ≤ x ∧ x ≤ 2147483647
+
+def AllR (l : List (Nat × Int)) : Prop := ∀ p ∈ l, I32 p.2
+
+/-- the server's view of every send window equals the ghost (and everything fits int32) -/
+def View (s : St) (g : Ghost) : Prop :=
+  s.conn = g.conn ∧ s.streams = g.win ∧ s.iws = g.iws ∧ 0 ≤ s.conn ∧ I32 s.conn ∧ 0 ≤ s.iws ∧ I32 s.iws ∧
+  AllR s.streams
+
+theorem mem_setKey {α : Type} (k : Nat) (v : α) (l : List (Nat × α)) (p : Nat × α)
+    (h : p ∈ setKey k v l) : p = (k, v) ∨ p ∈ l := by
+  induction l with
+  | nil => simp [setKey] at h; exact Or.inl h
+  | cons q r ih =>
+    obtain ⟨k', v'⟩ := q
+    simp only [setKey] at h
+    split at h
+    · simp at h; rcases h with h | h
+      · exact Or.inl h
+      · exact Or.inr (by simp [h])
+    · simp at h; rcases h with h | h
+      · exact Or.inr (by simp [h])
+      · rcases ih h with h' | h'
+        · exact Or.inl h'
+        · exact Or.inr (by simp [h'])
+
+theorem mem_delKey {α : Type} (k : Nat) (l : List (Nat × α)) (p : Nat × α)
+    (h : p ∈ delKey k l) : p ∈ l := by
+  induction l with
+  | nil => simp [delKey] at h
+  | cons q r ih =>
+    obtain ⟨k', v'⟩ := q
+    simp only [delKey] at h
+    split at h
+    · exact List.mem_cons_of_mem _ (ih h)
+    · simp at h; rcases h with h | h
+      · simp [h]
+      · exact List.mem_cons_of_mem _ (ih h)
+
+theorem allR_setKey (k : Nat) (v : Int) (l : List (Nat × Int)) (h : AllR l) (hv : I32 v) :
+    AllR (setKey k v l) := by
+  intro p hp
+  rcases mem_setKey k v l p hp with e | e
+  · subst e; exact hv
+  · exact h p e
+
+theorem allR_delKey (k : Nat) (l : List (Nat × Int)) (h : AllR l) : AllR (delKey k l) :=
+  fun p hp => h p (mem_delKey k l p hp)
+
+theorem lookup_mem (l : List (Nat × Int)) (k : Nat) (v : Int) (h : l.lookup k = some v) : (k, v) ∈ l := by
+  induction l with
+  | nil => simp at h
+  | cons q r ih =>
+    obtain ⟨k', v'⟩ := q
+    simp only [List.lookup_cons] at h
+    split at h
+    · rename_i hk; simp at h; have : k = k' := by simpa using hk
+      subst this; subst h; simp
+    · exact List.mem_cons_of_mem _ (ih h)
+
+theorem flowAdd_some (n inc r : Int) (hn : I32 n) (hi : I32 inc) (h : flowAdd n inc = some r) :
+    r = n + inc ∧ I32 r := by
+  unfold I32 at *
+  unfold flowAdd wrap32 at h
+  simp only [] at h
+  split at h
+  · rename_i hc
+    have h' : (((n + inc + 2147483648) % 4294967296 - 2147483648 > inc) ↔ (n > 0)) := by simpa using hc
+    simp only [Option.some.injEq] at h
+    subst h
+    constructor <;> omega
+  · simp at h
+
+theorem growAll_some (g : Int) (hg : I32 g) : ∀ (l l' : List (Nat × Int)), AllR l → growAll g l = some l' →
+    l' = l.map (fun p => (p.1, p.2 + g)) ∧ AllR l' := by
+  intro l
+  induction l with
+  | nil => intro l' _ h; simp [growAll] at h; subst h; exact ⟨rfl, fun p hp => by simp at hp⟩
+  | cons q r ih =>
+    obtain ⟨id, n⟩ := q
+    intro l' hr h
+    simp only [growAll] at h
+    split at h
+    · rename_i n' r' hn' hr'
+      simp at h; subst h
+      have hq : I32 n := hr (id, n) (by simp)
+      have := flowAdd_some n g n' hq hg hn'
+      have ht := ih r' (fun p hp => hr p (List.mem_cons_of_mem _ hp)) hr'
+      refine ⟨by simp [this.1, ht.1], ?_⟩
+      intro p hp
+      simp at hp
+      rcases hp with e | e
+      · subst e; exact this.2
+      · exact ht.2 p e
+    · simp at h
+
+theorem setKey_same (l : List (Nat × Int)) (k : Nat) (v : Int) (h : l.lookup k = some v) : setKey k v l = l := by
+  induction l with
+  | nil => simp at h
+  | cons q r ih =>
+    obtain ⟨k', v'⟩ := q
+    simp only [List.lookup_cons] at h
+    simp only [setKey]
+    split at h
+    · rename_i hk
+      have hk' : k = k' := by simpa using hk
+      subst hk'
+      simp at h; subst h; simp
+    · rename_i hk
+      have hk' : (k' == k) = false := by
+        have : ¬ (k = k') := by simpa using hk
+        simp; exact fun e => this e.symm
+      simp only [hk']
+      rw [ih h]; rfl
+
+/-- effect of handing frame `o` to the writer on the send windows -/
+def WinEff (s : St) (o : Out) (s' : St) : Prop :=
+  s'.iws = s.iws ∧
+  match o with
+  | .data id _ _ len _ _ =>
+    if len = 0 then s'.conn = s.conn ∧ s'.streams = s.streams
+    else ∃ w, s.streams.lookup id = some w ∧ (len : Int) ≤ w ∧ (len : Int) ≤ s.conn ∧
+      s'.conn = s.conn - len ∧ s'.streams = setKey id (w - len) s.streams
+  | _ => s'.conn = s.conn ∧ s'.streams = s.streams
+
+theorem shiftQ_win (s : St) (id : Nat) (rest : List Wr) :
+    (shiftQ s id rest).conn = s.conn ∧ (shiftQ s id rest).streams = s.streams ∧ (shiftQ s id rest).iws = s.iws := by
+  unfold shiftQ; split <;> exact ⟨rfl, rfl, rfl⟩
+
+theorem takeFrom_winEff (s : St) (j : Nat) : WinEff s (takeFrom s j).1 (takeFrom s j).2 := by
+  cases hq : s.sq.lookup j with
+  | none => rw [takeFrom_none s j hq]; exact ⟨rfl, rfl, rfl⟩
+  | some q =>
+    match q, hq with
+    | [], hq => rw [takeFrom_nil s j hq]; exact ⟨rfl, rfl, rfl⟩
+    | .hdr e0 :: rest, hq =>
+      rw [takeFrom_hdr s j e0 rest hq]
+      have := shiftQ_win s j rest
+      exact ⟨this.2.2, this.1, this.2.1⟩
+    | .data msg off len e :: rest, hq =>
+      by_cases hl0 : len = 0
+      · subst hl0
+        rw [takeFrom_zero s j msg off e rest hq]
+        have := shiftQ_win s j rest
+        exact ⟨this.2.2, by simp [this.1, this.2.1]⟩
+      · cases hw : s.streams.lookup j with
+        | none => rw [takeFrom_nostream s j msg off len e rest hq hw (by omega)]; exact ⟨rfl, rfl, rfl⟩
+        | some w =>
+          rw [takeFrom_data s j msg off len e rest w hq hw (by omega)]
+          simp only []
+          have hle := allowedOf_le s.mfs (availOf s.conn w)
+          have hav := availOf_le s.conn w
+          split
+          · exact ⟨rfl, rfl, rfl⟩
+          · split
+            · split
+              · exact ⟨rfl, rfl, rfl⟩
+              · rename_i hgt hneg
+                refine ⟨rfl, ?_⟩
+                simp only []
+                have hpos : (allowedOf s.mfs (availOf s.conn w)).toNat ≠ 0 ∨ (allowedOf s.mfs (availOf s.conn w)).toNat = 0 := by omega
+                by_cases hz : (allowedOf s.mfs (availOf s.conn w)).toNat = 0
+                · -- allowed = 0 would mean available = 0 (excluded) or maxFrameSize = 0: then nothing moves
+                  simp only [hz, if_true]
+                  have h0 : allowedOf s.mfs (availOf s.conn w) = 0 := by omega
+                  refine ⟨by simp [debit, h0], ?_⟩
+                  simp only [debit, h0, Int.sub_zero]
+                  exact setKey_same _ _ _ hw
+                · simp only [hz, if_false]
+                  have hcast : ((allowedOf s.mfs (availOf s.conn w)).toNat : Int) = allowedOf s.mfs (availOf s.conn w) := by omega
+                  refine ⟨w, hw, by omega, by omega, ?_, ?_⟩
+                  · simp only [debit]; omega
+                  · simp only [debit, hcast]
+            · have := shiftQ_win (debit s j w len) j rest
+              refine ⟨this.2.2, ?_⟩
+              simp only [hl0, if_false]
+              refine ⟨w, hw, by omega, by omega, ?_, ?_⟩
+              · rw [this.1]; rfl
+              · rw [this.2.1]; rfl
+
+theorem take_winEff (s : St) (o1 o2 : List Nat) : WinEff s (take s o1 o2).1 (take s o1 o2).2 := by
+  unfold take
+  split
+  · exact ⟨rfl, rfl, rfl⟩
+  · split
+    · exact ⟨rfl, rfl, rfl⟩
+    · split
+      · exact ⟨rfl, rfl, rfl⟩
+      · split
+        · exact ⟨rfl, rfl, rfl⟩
+        · exact takeFrom_winEff s _
+        · split
+          · exact ⟨rfl, rfl, rfl⟩
+          · exact takeFrom_winEff s _
+
+theorem view_same (s s' : St) (g : Ghost) (hv : View s g) (h1 : s'.conn = s.conn)
+    (h2 : s'.streams = s.streams) (h3 : s'.iws = s.iws) : View s' g := by
+  unfold View at *
+  rw [h1, h2, h3]; exact hv
+
+theorem view_frame (s s' : St) (g : Ghost) (o : Out) (hv : View s g) (he : WinEff s o s') :
+    View s' (ghostFrame g o) := by
+  obtain ⟨hiws, heff⟩ := he
+  cases o with
+  | data id msg off len e d =>
+    simp only [] at heff
+    unfold ghostFrame
+    split at heff
+    · rename_i hl; simp only [hl, if_true]
+      exact view_same s s' g hv heff.1 heff.2 hiws
+    · rename_i hl
+      obtain ⟨hc, hs, hi, hc0, hcr, hi0, hir, hall⟩ := hv
+      obtain ⟨w, hw, hlw, hlc, hconn, hstr⟩ := heff
+      have hwr : I32 w := hall (id, w) (lookup_mem _ _ _ hw)
+      simp only [hl, if_false, ← hs, hw]
+      unfold View
+      simp only []
+      unfold I32 at *
+      refine ⟨?_, ?_, ?_, ?_, ?_, ?_, ?_, ?_⟩
+      · omega
+      · rw [hstr]
+      · rw [hiws, hi]
+      · omega
+      · omega
+      · rw [hiws]; exact hi0
+      · rw [hiws]; exact hir
+      · rw [hstr]; exact allR_setKey _ _ _ hall (by unfold I32; omega)
+  | nothing => exact view_same s s' g hv heff.1 heff.2 hiws
+  | ctl => exact view_same s s' g hv heff.1 heff.2 hiws
+  | hdr id e => exact view_same s s' g hv heff.1 heff.2 hiws
+  | panic w => exact view_same s s' g hv heff.1 heff.2 hiws
+
+theorem view_forget (s : St) (g : Ghost) (id : Nat) (hv : View s g) :
+    View (forget s id) { g with win := delKey id g.win } := by
+  obtain ⟨hc, hs, hi, hc0, hcr, hi0, hir, hall⟩ := hv
+  exact ⟨hc, by simp [forget, hs], hi, hc0, hcr, hi0, hir, allR_delKey _ _ hall⟩
+
+theorem view_zero (s : St) (g : Ghost) (z : Nat) (hv : View s g) : View { s with zero := z } g := hv
+
+theorem view_afterEnd (s : St) (g : Ghost) (id : Nat) (hv : View s g) :
+    View (afterEnd s id) { g with win := delKey id g.win } := by
+  unfold afterEnd
+  split
+  · exact view_forget s g id hv
+  · exact view_forget _ g id (view_zero s g _ hv)
+
+theorem view_chain : ∀ (fuel : Nat) (s : St) (g : Ghost) (ords : List (List Nat)), View s g →
+    View (takeChain fuel s ords).2 (ghostChain g (takeChain fuel s ords).1) := by
+  intro fuel
+  induction fuel with
+  | zero => intro s g ords hv; simpa [takeChain, ghostChain] using hv
+  | succ n ih =>
+    intro s g ords hv
+    have hf := view_frame s _ g _ hv (take_winEff s (ords.headD []) (ords.headD []))
+    simp only [takeChain]
+    split
+    · rename_i j hj
+      have h2 := view_afterEnd _ _ j hf
+      have h3 := ih _ _ ords.tail h2
+      simp only [ghostChain, List.foldl_cons, ghostEnds, hj]
+      exact h3
+    · rename_i hj
+      split
+      · rename_i hno
+        have : (take s (ords.headD []) (ords.headD [])).1 = .nothing := by simpa using hno
+        rw [this] at hf
+        simpa [ghostChain, ghostFrame] using hf
+      · simp only [ghostChain, List.foldl_cons, List.foldl_nil, ghostEnds, hj]
+        exact hf
+
+/-- what the frame parser / `Setting.Valid` guarantee about the numbers in client frames -/
+def Op.valid : Op → Prop
+  | .wu _ inc => inc ≤ 2147483647
+  | .setIws v => v ≤ 2147483647
+  | _ => True
+
+theorem pushQ_win (s : St) (i : Nat) (w : Wr) :
+    (pushQ s i w).conn = s.conn ∧ (pushQ s i w).streams = s.streams ∧ (pushQ s i w).iws = s.iws := by
+  unfold pushQ; split <;> exact ⟨rfl, rfl, rfl⟩
+
+theorem step_view (s : St) (g : Ghost) (msg : Nat) (op : Op) (hv : View s g) (hok : op.valid)
+    (hd : (step s msg op).2.2.dead = false) :
+    View (step s msg op).2.2 (ghostStep g op (step s msg op).1 (step s msg op).2.1) := by
+  cases op with
+  | openS id h =>
+    simp only [step]
+    split
+    · exact hv
+    · obtain ⟨hc, hs, hi, hc0, hcr, hi0, hir, hall⟩ := hv
+      split
+      · rename_i n hn
+        have := flowAdd_some 0 s.iws n (by unfold I32; omega) hir hn
+        simp only [ghostStep, beq_self_eq_true, if_true]
+        refine ⟨hc, ?_, hi, hc0, hcr, hi0, hir, allR_setKey _ _ _ hall this.2⟩
+        simp only []
+        rw [this.1, hs, hi]; simp
+      · exact ⟨hc, hs, hi, hc0, hcr, hi0, hir, hall⟩
+  | addData i len e =>
+    simp only [step]
+    split
+    · have := pushQ_win s i (.data msg 0 len e)
+      exact view_same s _ g hv this.1 this.2.1 this.2.2
+    · exact hv
+  | addHdr i e =>
+    simp only [step]
+    split
+    · have := pushQ_win s i (.hdr e)
+      exact view_same s _ g hv this.1 this.2.1 this.2.2
+    · exact hv
+  | addCtl => exact hv
+  | takeOp ords => exact view_chain _ s g ords hv
+  | wu id inc =>
+    have hinc : I32 (inc : Int) := by simp only [Op.valid] at hok; unfold I32; omega
+    obtain ⟨hc, hs, hi, hc0, hcr, hi0, hir, hall⟩ := hv
+    simp only [step] at hd ⊢
+    split
+    · rename_i h0
+      simp only [h0, if_true] at hd
+      split
+      · rename_i n hn
+        have := flowAdd_some s.conn inc n hcr hinc hn
+        have hg : ghostStep g (.wu id inc) "ok" [] = { g with conn := g.conn + inc } := by
+          simp [ghostStep, h0]
+        rw [hg]
+        unfold I32 at *
+        refine ⟨?_, hs, hi, ?_, ?_, hi0, hir, hall⟩
+        · show n = g.conn + inc
+          omega
+        · show 0 ≤ n
+          omega
+        · show -2147483648 ≤ n ∧ n ≤ 2147483647
+          omega
+      · rename_i hn; simp [hn] at hd
+    · rename_i h0
+      split
+      · rename_i hl
+        have e1 : ("nostream" == "ok") = false := by decide
+        have e2 : ("nostream" == "rst") = false := by decide
+        simp only [ghostStep, e1, e2]
+        exact ⟨hc, hs, hi, hc0, hcr, hi0, hir, hall⟩
+      · rename_i n hl
+        have hn : I32 n := hall (id, n) (lookup_mem _ _ _ hl)
+        split
+        · rename_i n' hadd
+          have := flowAdd_some n inc n' hn hinc hadd
+          have hg : ghostStep g (.wu id inc) "ok" [] = { g with win := setKey id (n + inc) g.win } := by
+            simp [ghostStep, h0, ← hs, hl]
+          rw [hg]
+          refine ⟨hc, ?_, hi, hc0, hcr, hi0, hir, allR_setKey _ _ _ hall this.2⟩
+          show setKey id n' s.streams = setKey id (n + inc) g.win
+          rw [this.1, hs]
+        · have e1 : ("rst" == "ok") = false := by decide
+          simp only [ghostStep, e1, beq_self_eq_true, if_true]
+          exact view_forget _ g id (view_zero s g _ ⟨hc, hs, hi, hc0, hcr, hi0, hir, hall⟩)
+  | setIws v =>
+    have hvr : (v : Int) ≤ 2147483647 := by simp only [Op.valid] at hok; omega
+    obtain ⟨hc, hs, hi, hc0, hcr, hi0, hir, hall⟩ := hv
+    simp only [step] at hd ⊢
+    split
+    · rename_i st' hg
+      have hgr : I32 ((v : Int) - s.iws) := by unfold I32 at *; omega
+      have := growAll_some _ hgr s.streams st' hall hg
+      simp only [ghostStep, beq_self_eq_true, if_true]
+      refine ⟨hc, ?_, rfl, hc0, hcr, by simp only []; omega, by unfold I32; simp only []; omega, this.2⟩
+      simp only []
+      rw [this.1, hs, hi]
+    · rename_i hg; simp [hg] at hd
+  | setMfs v => exact hv
+  | forgetOp id =>
+    simp only [step]
+    split
+    · simp only [ghostStep, beq_self_eq_true, if_true]
+      exact view_forget s g id hv
+    · exact hv
+
+/-- run the operations and the ghost side by side, as long as the connection lives -/
+def runG : St → Ghost → Nat → List Op → St × Ghost
+  | s, g, _, [] => (s, g)
+  | s, g, msg, op :: r =>
+    let t := step s msg op
+    if t.2.2.dead then (s, g) else runG t.2.2 (ghostStep g op t.1 t.2.1) (nextMsg msg op) r
+
+theorem runG_view (ops : List Op) : ∀ (s : St) (g : Ghost) (msg : Nat), View s g →
+    (∀ op ∈ ops, op.valid) → View (runG s g msg ops).1 (runG s g msg ops).2 := by
+  induction ops with
+  | nil => intro s g msg hv _; exact hv
+  | cons op r ih =>
+    intro s g msg hv hok
+    simp only [runG]
+    split
+    · exact hv
+    · rename_i hd
+      exact ih _ _ _ (step_view s g msg op hv (hok op (by simp)) (by simpa using hd))
+        (fun o ho => hok o (by simp [ho]))
+
+theorem init_view : View init {} := by
+  unfold View init I32 AllR; simp
 
 end BfeVerif.C34
